@@ -4,6 +4,7 @@ import (
 	"fmt"
 	"go/token"
 	"go/types"
+	"os"
 	"strings"
 
 	"golang.org/x/tools/go/ssa"
@@ -313,6 +314,47 @@ func ruleC04Accept2(id string) func(*Checker) {
 		ks := findContainments(g)
 		nTrue := 0
 		rootSeen := false
+		checkEst := func(est *Containment, label string, pos token.Pos) {
+			// subject must be cleaned and depend on the target parameter
+			subjOK := cleanedValue(est.Subject, map[ssa.Value]bool{})
+			dep := false
+			sl := p.backSlice(est.Subject, 0)
+			var tgt *ssa.Parameter
+			if n := len(g.Params); n > 0 {
+				tgt = g.Params[n-1]
+			}
+			if tgt != nil && sl[tgt] {
+				dep = true
+			}
+			// the root it is compared with must be lexically clean too (Abs/Clean/EvalSymlinks result)
+			if est.Root != nil {
+				// a root taken from the root parameter is made absolute (filepath.Abs), not merely cleaned or
+				// resolved: the target it is compared with is absolute
+				fromParam, viaAbs := false, false
+				for v := range p.backSlice(est.Root, 0) {
+					if prm, ok := v.(*ssa.Parameter); ok && prm.Parent() == g && isStringType(prm.Type()) && len(g.Params) > 0 && prm != g.Params[len(g.Params)-1] {
+						fromParam = true
+					}
+					if cl, ok := v.(*ssa.Call); ok && isFunc(calleeObj(cl), "path/filepath", "Abs") {
+						viaAbs = true
+					}
+				}
+				if fromParam {
+					c.check(viaAbs, id, gname, label+" root is absolute", p.Pos(pos), "the root operand passes through filepath.Abs", "the root the absolute target is compared with is not made absolute (filepath.Abs replaced or dropped): with a relative destination such as \".\" every in-tree link looks external, and a slug Pack produced is refused")
+				}
+				rootClean := cleanRoot(est.Root, map[ssa.Value]bool{})
+				c.check(rootClean, id, gname, label+" root is clean", p.Pos(pos), "the root operand is the result of filepath.Abs / Clean (plus separator)", "the cleaned target is compared with a root that is not lexically clean on every path (e.g. Abs skipped for absolute roots): '/a/./tree' or '/a//tree' make every in-tree link look external")
+			}
+			c.check(subjOK && dep, id, gname, label, p.Pos(pos),
+				"guarded by a sound "+est.Kind+" containment of the cleaned target", "the containment test is applied to the raw (uncleaned) target or to a value that does not depend on the target")
+			if est.Root != nil {
+				for v := range p.backSlice(est.Root, 0) {
+					if prm, ok := v.(*ssa.Parameter); ok && prm.Parent() == g && isStringType(prm.Type()) && prm != tgt {
+						rootSeen = true
+					}
+				}
+			}
+		}
 		for i, r := range returnsOf(g) {
 			bv, isC := constBool(r.Results[0])
 			if isC && !bv {
@@ -421,48 +463,71 @@ func ruleC04Accept2(id string) func(*Checker) {
 					c.pass(id, gname, fmt.Sprintf("return true %d", i), p.Pos(r.Pos()), "exact match with an allow-listed target")
 					continue
 				}
+				// one return shared by several tests (`if inRoot(…) || allowed(…) { return true }`): every edge
+				// into it must itself be the inside edge of a sound test, or an exact match
+				if len(r.Block().Instrs) == 1 && len(r.Block().Preds) > 1 {
+					inEdges := func(es []Edge, e Edge) bool {
+						for _, x := range es {
+							if x == e {
+								return true
+							}
+						}
+						return false
+					}
+					onEdge := func(k Containment, e Edge) bool {
+						if len(k.Conj) == 0 {
+							return false
+						}
+						for _, cj := range k.Conj {
+							if !inEdges(cj, e) && !p.guardedC(e.From, cj) {
+								return false
+							}
+						}
+						return true
+					}
+					covered := true
+					var used []*Containment
+					for _, pb := range r.Block().Preds {
+						for si, sb := range pb.Succs {
+							if sb != r.Block() {
+								continue
+							}
+							e := Edge{pb, si}
+							if len(pb.Succs) == 2 && pb.Succs[0] == pb.Succs[1] {
+								covered = false
+								continue
+							}
+							if inEdges(eqT, e) || guarded(pb, eqT) {
+								continue
+							}
+							var k *Containment
+							for j := range ks {
+								if ks[j].Sound && onEdge(ks[j], e) {
+									k = &ks[j]
+								}
+							}
+							if k == nil {
+								covered = false
+								continue
+							}
+							used = append(used, k)
+						}
+					}
+					if covered && len(used) > 0 {
+						done := map[*Containment]bool{}
+						for _, k := range used {
+							if !done[k] {
+								done[k] = true
+								checkEst(k, fmt.Sprintf("return true %d (%s test)", i, k.Kind), r.Pos())
+							}
+						}
+						continue
+					}
+				}
 				c.fail(id, gname, fmt.Sprintf("return true %d", i), p.Pos(r.Pos()), "the validator accepts on a path that is not guarded by a sound containment test")
 				continue
 			}
-			// subject must be cleaned and depend on the target parameter
-			subjOK := cleanedValue(est.Subject, map[ssa.Value]bool{})
-			dep := false
-			sl := p.backSlice(est.Subject, 0)
-			var tgt *ssa.Parameter
-			if n := len(g.Params); n > 0 {
-				tgt = g.Params[n-1]
-			}
-			if tgt != nil && sl[tgt] {
-				dep = true
-			}
-			// the root it is compared with must be lexically clean too (Abs/Clean/EvalSymlinks result)
-			if est.Root != nil {
-				// a root taken from the root parameter is made absolute (filepath.Abs), not merely cleaned or
-				// resolved: the target it is compared with is absolute
-				fromParam, viaAbs := false, false
-				for v := range p.backSlice(est.Root, 0) {
-					if prm, ok := v.(*ssa.Parameter); ok && prm.Parent() == g && isStringType(prm.Type()) && len(g.Params) > 0 && prm != g.Params[len(g.Params)-1] {
-						fromParam = true
-					}
-					if cl, ok := v.(*ssa.Call); ok && isFunc(calleeObj(cl), "path/filepath", "Abs") {
-						viaAbs = true
-					}
-				}
-				if fromParam {
-					c.check(viaAbs, id, gname, fmt.Sprintf("return true %d root is absolute", i), p.Pos(r.Pos()), "the root operand passes through filepath.Abs", "the root the absolute target is compared with is not made absolute (filepath.Abs replaced or dropped): with a relative destination such as \".\" every in-tree link looks external, and a slug Pack produced is refused")
-				}
-				rootClean := cleanRoot(est.Root, map[ssa.Value]bool{})
-				c.check(rootClean, id, gname, fmt.Sprintf("return true %d root is clean", i), p.Pos(r.Pos()), "the root operand is the result of filepath.Abs / Clean (plus separator)", "the cleaned target is compared with a root that is not lexically clean on every path (e.g. Abs skipped for absolute roots): '/a/./tree' or '/a//tree' make every in-tree link look external")
-			}
-			c.check(subjOK && dep, id, gname, fmt.Sprintf("return true %d", i), p.Pos(r.Pos()),
-				"guarded by a sound "+est.Kind+" containment of the cleaned target", "the containment test is applied to the raw (uncleaned) target or to a value that does not depend on the target")
-			if est.Root != nil {
-				for v := range p.backSlice(est.Root, 0) {
-					if prm, ok := v.(*ssa.Parameter); ok && prm.Parent() == g && isStringType(prm.Type()) && prm != tgt {
-						rootSeen = true
-					}
-				}
-			}
+			checkEst(est, fmt.Sprintf("return true %d", i), r.Pos())
 		}
 		c.check(nTrue > 0 && rootSeen, id, gname, "accepts inside root", p.Pos(g.Pos()), "an accepting return is rooted at the validator's root parameter", "no accepting return compares against the root parameter")
 		// the root as the caller spelled it is used for one thing only: to be made absolute
@@ -1287,6 +1352,9 @@ func ruleC04Relative(id string) func(*Checker) {
 				for v := range p.backSlice(k.Root, 0) {
 					if prm, ok := v.(*ssa.Parameter); ok && prm.Parent() == g && isStringType(prm.Type()) && prm != tgt {
 						rooted = true
+						if os.Getenv("SLUGCHECK_DEBUG") != "" {
+							fmt.Fprintf(os.Stderr, "C04.relative: return %d (block %d) rooted by %s at block %d conj=%v\n", i, r.Block().Index, k.Kind, k.At.Block().Index, k.Conj)
+						}
 					}
 				}
 				for v := range p.backSlice(k.Root, 0) {
